@@ -8,7 +8,10 @@ from models_iter import ListIter
 
 F64 = z3.Float64()
 def in01(x): return z3.And(z3.fpLEQ(z3.FPVal(0.0, F64), x), z3.fpLEQ(x, z3.FPVal(1.0, F64)))
-def bits(m, x): return '%016x' % m.eval(z3.fpToIEEEBV(x), model_completion=True).as_long()
+def bits(m, x):
+    v = m.eval(x, model_completion=True)
+    if z3.is_fp_value(v) and v.isNaN(): return '7ff8000000000000'       # fp.to_ieee_bv is unspecified on NaN
+    return '%016x' % m.eval(z3.fpToIEEEBV(v), model_completion=True).as_long()
 
 SPEC = {'truth': dict(ty='truth::Truth', path='enum_narsese::sentence::truth::Truth', max=2, news=['new_single', 'new_double'], gets=['f', 'c'], variants=['Empty', 'Single', 'Double']),
         'budget': dict(ty='budget::Budget', path='enum_narsese::task::budget::Budget', max=3, news=['new_single', 'new_double', 'new_triple'], gets=['p', 'd', 'q'], variants=['Empty', 'Single', 'Double', 'Triple'])}
